@@ -9,3 +9,5 @@ import UF.GroupE
 import UF.GroupF
 import UF.GroupG
 import UF.GroupH
+import UF.GroupI1
+import UF.GroupI2
